@@ -93,13 +93,13 @@ def mixed_ops(reopen_ok=False, boot=True):
 
 
 def mixed(reopen_ok=False, cfg=None, min_ops=5, max_ops=30):
-    return program(cfg or cfg_st(), st.lists(mixed_ops(reopen_ok), min_size=min_ops, max_size=max_ops))
+    return program(cfg if cfg is not None else cfg_st(), st.lists(mixed_ops(reopen_ok), min_size=min_ops, max_size=max_ops))
 
 
 def growshrink(cfg=None, reopen_ok=False):
     """Many entries in one directory (directory extent crosses 1..4 sectors, long RR names so
     that more than one continuation sector is needed), then removals in drawn order."""
-    c = cfg or cfg_st()
+    c = cfg if cfg is not None else cfg_st()
     first = st.lists(add_dir(d=st.just(0), rsz=st.integers(0, 2)), min_size=0, max_size=1)
     adds = st.lists(st.one_of(add_fp(d=st.just(1), length=SMALL_LEN, rsz=st.one_of(st.integers(0, 2), st.integers(3, 6), st.integers(4, 8)), file=st.just(False)),
                               add_fp(d=st.just(1), length=SMALL_LEN, rsz=st.integers(3, 6), file=st.just(False)),
@@ -114,7 +114,7 @@ def growshrink(cfg=None, reopen_ok=False):
 def deep(cfg=None, reopen_ok=False):
     """Chains of directories to logical depth 9-17 (RR relocation at depth 8 and 16), files and
     symlinks inside relocated dirs, removal of relocated dirs."""
-    c = cfg or cfg_st(rr=st.sampled_from(['1.09', '1.10', '1.12', '1.09', None]), level=st.sampled_from([1, 2, 3, 3, 4]))
+    c = cfg if cfg is not None else cfg_st(rr=st.sampled_from(['1.09', '1.10', '1.12', '1.09', None]), level=st.sampled_from([1, 2, 3, 3, 4]))
     last = st.just(-1)
     chain = st.lists(add_dir(d=last, ns=st.sampled_from([7, 7, 1, 3]), rsz=st.integers(0, 4), sz=st.integers(0, 2)), min_size=7, max_size=17)
     inside = st.lists(st.one_of(add_fp(d=st.one_of(last, I), length=SMALL_LEN), add_sym, add_dir(d=st.one_of(last, I)), add_link, hide, query),
@@ -127,7 +127,7 @@ def deep(cfg=None, reopen_ok=False):
 def links(cfg=None, reopen_ok=False):
     """Blobs with 2-6 names across namespaces, zero-length blobs, link/unlink/rm_file
     interleavings, (optionally) reopen in the middle."""
-    c = cfg or cfg_st(joliet=st.sampled_from([3, 3, 1, None]), udf=st.sampled_from([True, True, False]))
+    c = cfg if cfg is not None else cfg_st(joliet=st.sampled_from([3, 3, 1, None]), udf=st.sampled_from([True, True, False]))
     zero_or_small = st.sampled_from([0, 0, 0, 1, 2048, 2049, 70000, 5000])
     seed_ops = st.lists(st.one_of(add_fp(length=zero_or_small, d=st.sampled_from([0, 0, 1])), add_dir(d=st.just(0))), min_size=2, max_size=6)
     body_choices = [add_link, add_link, add_link, rm_link, rm_link, rm_file, add_fp(length=zero_or_small), add_sym, rm_sym, add_boot, rm_boot, link_cat, query, write]
@@ -143,7 +143,7 @@ BOOT_LEN = st.sampled_from([1, 63, 64, 2047, 2048, 2048, 2049, 10000, 512, 4096]
 def boot(cfg=None, reopen_ok=False, hybrid=True):
     """El Torito (noemul / floppy / hdemul with generated MBRs), platform ids, sections,
     boot-info-table, hidden/unlinked boot files, isohybrid."""
-    c = cfg or cfg_st()
+    c = cfg if cfg is not None else cfg_st()
     files = st.lists(st.one_of(add_fp(length=BOOT_LEN, ck=st.sampled_from([1, 1, 2, 0]), ns=st.sampled_from([7, 7, 1, 3, 5]), d=st.sampled_from([0, 0, 1]), file=st.just(False)),
                                add_fp(length=st.sampled_from([1228800, 1474560]), ck=st.just(0), ns=st.just(1), d=st.just(0), file=st.just(False)),
                                add_fp(length=BOOT_LEN, ck=st.sampled_from([1, 1, 2, 0]), ns=st.sampled_from([7, 1]), d=st.just(0), file=st.just(False)),
@@ -162,7 +162,7 @@ def boot(cfg=None, reopen_ok=False, hybrid=True):
 
 def manydirs(cfg=None):
     """230-400 directories so that a path table exceeds 4 KiB (and shrinks back)."""
-    c = cfg or cfg_st()
+    c = cfg if cfg is not None else cfg_st()
     adds = st.lists(add_dir(d=st.one_of(st.just(0), st.just(0), I), sz=st.sampled_from([1, 1, 2]), rsz=st.integers(0, 1)), min_size=230, max_size=400)
     rms = st.lists(st.one_of(rm_dir, rm_dir, add_fp(length=SMALL_LEN)), min_size=0, max_size=200)
     return program(c, st.builds(lambda a, r: a + r, adds, rms))
@@ -201,18 +201,30 @@ def hybrid(cfg=None, reopen_ok=False):
     """isohybrid images by construction: a 2048-byte boot file carrying the isolinux signature is the
     initial El Torito entry (load size 4), optional further 0xef entries of different sizes, then
     add_isohybrid with drawn geometry/partition parameters, then edits that move the boot files."""
-    c = cfg or cfg_st()
+    c = cfg if cfg is not None else cfg_st()
     bootfile = add_fp(length=st.sampled_from([2048, 2048, 1024, 68, 4096]), ck=st.just(1), ns=st.sampled_from([7, 1, 3]), d=st.just(0), file=st.just(False))
     first = add_boot.map(lambda o: dict(o, b=0, j=0, media=0, plat=0, load=4, efi=False))
     efifile = add_fp(length=st.sampled_from([5000, 2048, 70000, 1]), ck=st.just(0), ns=st.sampled_from([7, 1]), d=st.just(0), file=st.just(False))
     efiboot = add_boot.map(lambda o: dict(o, b=1, j=0, media=0, efi=True, load=None))
-    efi_part = st.lists(st.tuples(efifile, efiboot).map(list), min_size=0, max_size=2).map(lambda l: [x for pair in l for x in pair])
+
+    def flat(l):
+        out = []
+        for k, (f, b) in enumerate(l):
+            out += [f, dict(b, b=k + 1)]       # each EFI/Mac entry boots its own image
+        return out
+    efi_part = st.lists(st.tuples(efifile, efiboot), min_size=0, max_size=2).map(flat)
     pre = st.lists(st.one_of(add_fp(length=SMALL_LEN), add_dir()), min_size=0, max_size=3)
     body_choices = [add_fp(length=SMALL_LEN), add_fp(length=st.sampled_from([600000, 70000])), rm_file, add_dir(), query, write, force, add_hybrid, rm_hybrid, add_link, hide]
     if reopen_ok:
         body_choices.append(reopen)
     body = st.lists(st.one_of(*body_choices), min_size=0, max_size=8)
-    return program(c, st.builds(lambda bf, f, e, p, h, b: [bf, f] + e + p + [h] + b, bootfile, first, efi_part, pre, add_hybrid, body))
+    def assemble(bf, f, e, p, h, b, consistent):
+        if consistent:
+            # efi/mac flags that match the number of 0xef entries (the mismatch is the known finding hybrid-efi-count)
+            n = len(e) // 2
+            h = dict(h, efi=(True if n >= 1 else None), mac=(n == 2), pt=(None if n else h.get('pt')))
+        return [bf, f] + e + p + [h] + b
+    return program(c, st.builds(assemble, bootfile, first, efi_part, pre, add_hybrid, body, st.sampled_from([True, True, True, False])))
 
 
 _old_any_profile = any_profile
